@@ -9,6 +9,8 @@ From P7 Require Import Prelude PyPrims Number Header Spec Assign AssignProofs.
 From P7 Require PackInfoGen.
 From P7 Require HeaderGenPrims FolderGen.
 From P7 Require SubstreamsGen.
+From P7 Require StreamsGen.
+From P7 Require FilesGen.
 From P7gen Require ArchiveinfoRecords.
 Open Scope Z_scope.
 
@@ -17,13 +19,13 @@ Example C06_spec_reads_minimal_header :
 Proof. vm_compute. split; reflexivity. Qed.
 
 (* the conditions under which py7zr conforms, spelled out: structural validity, counts are counts,
-   and "directory by the format (empty stream, EmptyFile bit clear) <-> attributes defined with
-   FILE_ATTRIBUTE_DIRECTORY" for every entry *)
+   and no entry WITH data carries FILE_ATTRIBUTE_DIRECTORY.  Entries without data are not constrained:
+   directory or empty file is read from the EmptyFile bit, as the format says, whatever their attributes *)
 Theorem C06_nice_spelled_out : forall h,
   nice h = s_valid h
            && forallb (fun n => 0 <=? n) (sh_nums h)
-           && forallb (fun p => Bool.eqb (pl_kind p =? 2)
-                                  (match pl_attr p with Some v => negb (Z.land v 16 =? 0) | None => false end))
+           && forallb (fun p => negb ((pl_kind p =? 0)
+                                      && (match pl_attr p with Some v => negb (Z.land v 16 =? 0) | None => false end)))
                       (spec_plans h).
 Proof. intros h. reflexivity. Qed.
 Print Assumptions C06_nice_spelled_out.
@@ -72,11 +74,21 @@ Theorem C06_impl_plans_install_sub : forall h, impl_plans (install_sub h) = impl
 Proof. exact impl_plans_install_sub. Qed.
 Print Assumptions C06_impl_plans_install_sub.
 
-(* the EmptyFile vector is not consulted by the assignment *)
-Theorem C06_impl_ignores_emptyfile_vector : forall st fl ef ef',
-  impl_plans (mkHeader st fl ef) = impl_plans (mkHeader st fl ef').
-Proof. exact impl_plans_ignores_emptyfiles. Qed.
-Print Assumptions C06_impl_ignores_emptyfile_vector.
+(* the EmptyFile vector is consulted through the bit of each entry without data, in order (a short vector
+   stands for one padded with False, surplus bits are not read) ... *)
+Theorem C06_impl_reads_emptyfile_vector_aligned : forall st fl ef,
+  let nes := Z.to_nat (count_true (map e_emptystream fl)) in
+  impl_plans (mkHeader st (Some fl) (firstn nes (ef ++ repeat false nes))) = impl_plans (mkHeader st (Some fl) ef).
+Proof. exact impl_plans_emptyfiles_aligned. Qed.
+Print Assumptions C06_impl_reads_emptyfile_vector_aligned.
+(* ... and it decides the kind of those entries: the decision of ArchiveFile.is_directory differs from the one made
+   before the repair (attribute word alone) exactly on the entries without data whose attributes disagree with
+   their EmptyFile bit *)
+Theorem C06_kind_decision_vs_before_repair : forall e ef,
+  entry_kind e ef = kind_before_repair e <->
+  (e_emptystream e = true -> negb ef = attr_is_dir (e_attr e)).
+Proof. exact kind_before_repair_agrees. Qed.
+Print Assumptions C06_kind_decision_vs_before_repair.
 
 (* B. what remains necessary, and what the repairs made unnecessary *)
 Theorem C06_zero_folder_conforms :
@@ -102,25 +114,45 @@ Theorem C06_negative_count_refuted :
 Proof. exact assign_negative_count_refuted. Qed.
 Print Assumptions C06_negative_count_refuted.
 
-Theorem C06_dir_without_attribute_refuted :
-  s_valid w_dir_noattr = true /\ nums_nonneg w_dir_noattr = true /\ kinds_consistent w_dir_noattr = false /\
-  map pl_kind (spec_plans w_dir_noattr) = [0; 2] /\
-  (exists ps, impl_plans (embed w_dir_noattr) = Ok ps /\ map ip_kind ps = [0; 1]) /\
-  disagrees w_dir_noattr.
-Proof. exact assign_dir_without_attribute_refuted. Qed.
-Print Assumptions C06_dir_without_attribute_refuted.
+(* directories without attributes / with an attribute word lacking the directory bit, and an empty file whose
+   attribute word carries it: read as the format says since the repair of ArchiveFile.is_directory *)
+Theorem C06_dir_without_attribute_conforms :
+  (nice w_dir_noattr = true /\
+   map pl_kind (spec_plans w_dir_noattr) = [0; 2] /\
+   exists ps, impl_plans (embed w_dir_noattr) = Ok ps /\ map ip_kind ps = [0; 2] /\
+     plans_agree 0 (spec_plans w_dir_noattr) ps = true) /\
+  (nice w_dir_attr_nobit = true /\
+   map pl_kind (spec_plans w_dir_attr_nobit) = [2; 0; 2; 2] /\
+   exists ps, impl_plans (embed w_dir_attr_nobit) = Ok ps /\ map ip_kind ps = [2; 0; 2; 2] /\
+     plans_agree 0 (spec_plans w_dir_attr_nobit) ps = true).
+Proof. exact assign_dir_without_attribute_conforms. Qed.
+Print Assumptions C06_dir_without_attribute_conforms.
 
-Theorem C06_kind_from_attribute_refuted :
-  (s_valid w_file_dirattr && nums_nonneg w_file_dirattr = true /\
-   map pl_kind (spec_plans w_file_dirattr) = [0; 1] /\
-   (exists ps, impl_plans (embed w_file_dirattr) = Ok ps /\ map ip_kind ps = [0; 2]) /\
-   disagrees w_file_dirattr) /\
-  (s_valid w_data_dirattr && nums_nonneg w_data_dirattr = true /\
-   map pl_kind (spec_plans w_data_dirattr) = [0] /\
-   (exists ps, impl_plans (embed w_data_dirattr) = Ok ps /\ map ip_kind ps = [2]) /\
-   disagrees w_data_dirattr).
-Proof. exact assign_kind_from_attribute_refuted. Qed.
-Print Assumptions C06_kind_from_attribute_refuted.
+Theorem C06_emptyfile_with_dir_attribute_conforms :
+  nice w_file_dirattr = true /\
+  map pl_kind (spec_plans w_file_dirattr) = [0; 1] /\
+  exists ps, impl_plans (embed w_file_dirattr) = Ok ps /\ map ip_kind ps = [0; 1] /\
+    plans_agree 0 (spec_plans w_file_dirattr) ps = true.
+Proof. exact assign_emptyfile_with_dir_attribute_conforms. Qed.
+Print Assumptions C06_emptyfile_with_dir_attribute_conforms.
+
+(* regression: the decision as it was (attribute word alone) misreads exactly these three headers *)
+Example C06_kind_before_repair_refuted :
+  (map kind_before_repair (sh_files w_dir_noattr) = [0; 1] /\ map pl_kind (spec_plans w_dir_noattr) = [0; 2]) /\
+  (map kind_before_repair (sh_files w_dir_attr_nobit) = [1; 0; 1; 2] /\
+   map pl_kind (spec_plans w_dir_attr_nobit) = [2; 0; 2; 2]) /\
+  (map kind_before_repair (sh_files w_file_dirattr) = [0; 2] /\ map pl_kind (spec_plans w_file_dirattr) = [0; 1]).
+Proof. exact assign_kind_before_repair_refuted. Qed.
+
+(* what remains necessary of the clause on kinds: an entry WITH data whose attributes carry the directory bit
+   is taken for a directory *)
+Theorem C06_data_with_dir_attribute_refuted :
+  s_valid w_data_dirattr && nums_nonneg w_data_dirattr = true /\ kinds_consistent w_data_dirattr = false /\
+  map pl_kind (spec_plans w_data_dirattr) = [0] /\
+  (exists ps, impl_plans (embed w_data_dirattr) = Ok ps /\ map ip_kind ps = [2]) /\
+  disagrees w_data_dirattr.
+Proof. exact assign_data_with_dir_attribute_refuted. Qed.
+Print Assumptions C06_data_with_dir_attribute_refuted.
 
 (* a header without SubStreamsInfo, read from its bytes by both parsers: the hypotheses above hold of what the
    specification reader yields, py7zr's parser yields embed_nosub of it, the member is assigned as the format says;
@@ -280,3 +312,77 @@ Theorem C06_gen_SubstreamsInfo_default_is_default_digests : forall gfs : list Ar
     Ok (ArchiveinfoRecords.mkSubstreamsInfo g d None (repeat 1 (length gfs))).
 Proof. exact SubstreamsGen.gen_SubstreamsInfo_default. Qed.
 Print Assumptions C06_gen_SubstreamsInfo_default_is_default_digests.
+
+(* ---- third wave (stage 4): StreamsInfo.read / retrieve as translated on this run is parse_streams.  StreamsGen.streams_of maps
+   the object (three attributes, each an object or None) to the model's record.  Equal up to the CLASS of the exception
+   (res_same), for the reason given at C06_gen_UnpackInfo_retrieve_is_parse_unpackinfo; when the model accepts, the generated
+   reader returns exactly the model's value and rest.  The call of SubstreamsInfo.retrieve gets numfolders and folders from
+   the UnpackInfo object just read: StreamsGen.gen_UnpackInfo_retrieve_ok shows numfolders = len(folders) there. ---- *)
+Theorem C06_gen_StreamsInfo_retrieve_is_parse_streams : forall lim bs, wf_bytes bs = true ->
+  parse_streams lim bs = Err EFuel \/
+  HeaderGenPrims.res_same (do (o, r) <- ArchiveinfoRecords.StreamsInfo_retrieve bs; Ok (StreamsGen.streams_of o, r))
+                          (parse_streams lim bs).
+Proof. exact StreamsGen.gen_StreamsInfo_retrieve_model_or. Qed.
+Print Assumptions C06_gen_StreamsInfo_retrieve_is_parse_streams.
+
+Theorem C06_gen_StreamsInfo_retrieve_accepts : forall lim bs s r, wf_bytes bs = true -> parse_streams lim bs = Ok (s, r) ->
+  (do (o, r) <- ArchiveinfoRecords.StreamsInfo_retrieve bs; Ok (StreamsGen.streams_of o, r)) = Ok (s, r).
+Proof. exact StreamsGen.gen_StreamsInfo_retrieve_eq_model. Qed.
+Print Assumptions C06_gen_StreamsInfo_retrieve_accepts.
+
+(* ---- third wave (stage 5, pieces): read_utf16 and the FilesInfo readers _read_name / _read_attributes / _read_times (one
+   generated function per key the class passes: creationtime, lastaccesstime, lastwritetime) as translated on this run are
+   rd_utf16 / rd_names / rd_per_file and the times branch of parse_file_prop.  An entry of FilesInfo.files is a dict whose
+   keys other than "emptystream" may be absent: record FileEntry with option fields; FilesGen.file_of maps it to the model's
+   fileent (which has no EmptyFile field: the generated functions keep it unchanged). ---- *)
+Theorem C06_gen_read_utf16_is_rd_utf16 : forall bs,
+  (do (cs, r) <- ArchiveinfoRecords.read_utf16 bs; Ok (map fix_backslash cs, r)) = rd_utf16 bs.
+Proof. intros bs. rewrite FilesGen.gen_read_utf16. symmetry. apply FilesGen.rd_utf16_plain_fix. Qed.
+Print Assumptions C06_gen_read_utf16_is_rd_utf16.
+
+Theorem C06_gen_FilesInfo_read_name_is_rd_names : forall (self : ArchiveinfoRecords.FilesInfo) bs,
+  (do (o, r) <- ArchiveinfoRecords.FilesInfo_read_name self bs;
+   Ok (map FilesGen.file_of (ArchiveinfoRecords.FilesInfo_files o), ArchiveinfoRecords.FilesInfo_emptyfiles o, r))
+  = (do (fs, r) <- rd_names (map FilesGen.file_of (ArchiveinfoRecords.FilesInfo_files self)) bs;
+     Ok (fs, ArchiveinfoRecords.FilesInfo_emptyfiles self, r)).
+Proof. exact FilesGen.gen_FilesInfo_read_name_model. Qed.
+Print Assumptions C06_gen_FilesInfo_read_name_is_rd_names.
+
+Theorem C06_gen_FilesInfo_read_attributes_is_rd_per_file : forall (self : ArchiveinfoRecords.FilesInfo) bs defined,
+  (do (o, r) <- ArchiveinfoRecords.FilesInfo_read_attributes self bs defined;
+   Ok (map FilesGen.file_of (ArchiveinfoRecords.FilesInfo_files o), ArchiveinfoRecords.FilesInfo_emptyfiles o, r))
+  = (do (fs, r) <- rd_per_file 4 (map FilesGen.file_of (ArchiveinfoRecords.FilesInfo_files self)) defined set_attr bs;
+     Ok (fs, ArchiveinfoRecords.FilesInfo_emptyfiles self, r)).
+Proof. exact FilesGen.gen_FilesInfo_read_attributes_model. Qed.
+Print Assumptions C06_gen_FilesInfo_read_attributes_is_rd_per_file.
+
+(* FilesGen.times_branch lim which files emptyfiles bs is, verbatim, the branch `(prop =? 18) || (prop =? 19) || (prop =? 20)` of
+   parse_file_prop with the rest of the buffer kept *)
+Theorem C06_gen_FilesInfo_read_times_are_model : forall lim (self : ArchiveinfoRecords.FilesInfo) bs, wf_bytes bs = true ->
+  rd_boolean lim (zlen (ArchiveinfoRecords.FilesInfo_files self)) true bs = Err EFuel \/
+  ((do (o, r) <- ArchiveinfoRecords.FilesInfo_read_times_creationtime self bs;
+    Ok (map FilesGen.file_of (ArchiveinfoRecords.FilesInfo_files o), ArchiveinfoRecords.FilesInfo_emptyfiles o, r))
+   = FilesGen.times_branch lim 18 (map FilesGen.file_of (ArchiveinfoRecords.FilesInfo_files self)) (ArchiveinfoRecords.FilesInfo_emptyfiles self) bs /\
+   (do (o, r) <- ArchiveinfoRecords.FilesInfo_read_times_lastaccesstime self bs;
+    Ok (map FilesGen.file_of (ArchiveinfoRecords.FilesInfo_files o), ArchiveinfoRecords.FilesInfo_emptyfiles o, r))
+   = FilesGen.times_branch lim 19 (map FilesGen.file_of (ArchiveinfoRecords.FilesInfo_files self)) (ArchiveinfoRecords.FilesInfo_emptyfiles self) bs /\
+   (do (o, r) <- ArchiveinfoRecords.FilesInfo_read_times_lastwritetime self bs;
+    Ok (map FilesGen.file_of (ArchiveinfoRecords.FilesInfo_files o), ArchiveinfoRecords.FilesInfo_emptyfiles o, r))
+   = FilesGen.times_branch lim 20 (map FilesGen.file_of (ArchiveinfoRecords.FilesInfo_files self)) (ArchiveinfoRecords.FilesInfo_emptyfiles self) bs).
+Proof. exact FilesGen.gen_FilesInfo_read_times_model. Qed.
+Print Assumptions C06_gen_FilesInfo_read_times_are_model.
+
+(* ---- third wave (stage 5, whole reader): FilesInfo._read / retrieve as translated on this run is parse_files.  The `while
+   True` loop runs on explicit fuel (any fuel above the length of the input suffices: every round that does not end the loop
+   consumes the property id and a NUMBER).  FilesGen.entry_flags reads the EmptyFile flag _read stores with every empty-stream
+   entry: together they are the model's second component.  Equal up to the class of the exception (res_same): START_POS
+   (id 24; _read_start_pos always fails an assert) and the "external" forms of names / attributes (fp.tell / fp.seek,
+   "no-cover") are not translated: the generated function answers EUnsupported there. ---- *)
+Theorem C06_gen_FilesInfo_retrieve_is_parse_files : forall lim bs fuel, wf_bytes bs = true -> (length bs < fuel)%nat ->
+  parse_files lim bs = Err EFuel \/
+  HeaderGenPrims.res_same
+    (do (o, r) <- ArchiveinfoRecords.FilesInfo_retrieve bs fuel;
+     Ok ((map FilesGen.file_of (ArchiveinfoRecords.FilesInfo_files o), FilesGen.entry_flags (ArchiveinfoRecords.FilesInfo_files o)), r))
+    (parse_files lim bs).
+Proof. exact FilesGen.gen_FilesInfo_retrieve_model_or. Qed.
+Print Assumptions C06_gen_FilesInfo_retrieve_is_parse_files.
